@@ -39,6 +39,21 @@ def configs(tier):
         ('hard-limit/2proc', 2, SL + [('apply', 'ok', 2)],
          S(2) + ['wait:0', 'wait:1', 'terminate'], dict(timeout=2.0)),
     ]
+    base += [
+        # a worker that was sent a signal its task survives, then terminate()
+        ('soft-signalled-then-terminate/1proc', 1,
+         [('apply', 'sleepy_catch', 6.0)],
+         S(1) + ['sleep:1.0', 'tjob_soft:0', 'sleep:1.0', 'terminate'], {}),
+        # terminate() on a pool whose worker is a replacement (recycled /
+        # killed original): everything handed the worker list at
+        # construction must still see the live one
+        ('replaced-then-terminate/1proc', 1, OK2,
+         S(1) + ['wait:0', 'rounds:1', 'submit:1', 'terminate'],
+         dict(maxtasksperchild=1)),
+        ('killed-replaced-then-terminate/1proc', 1, SL,
+         ['killworker:0', 'rounds:1', 'submit:0', 'sleep:1.0', 'terminate'],
+         {}),
+    ]
     for name, procs, jobs, script, pk in base:
         b = 1 if not T else 2
         out.append((dict(name=name, procs=procs, jobs=jobs, script=script,
